@@ -20,7 +20,7 @@ def handleF : List Sexp → Sexp
     | some a =>
       match which with
       | "number" => (match asNumberCast a with | .ok x => app "ok" [encNum x] | .error _ => app "err" [.atom "WrongArgument"])
-      | "integer" => (match asIntegerCast a with | .ok i => app "ok" [.atom (toString i)] | .error _ => app "err" [.atom "WrongArgument"])
+      | "integer" => (match asIntegerCast a with | .ok i => app "ok" [.atom (toString i)] | .error .doesNotFit => app "err" [.atom "Other"] | .error _ => app "err" [.atom "WrongArgument"])
       | "usize" => (match asUsizeCast a with | .ok n => app "ok" [.atom (toString n)] | .error _ => app "err" [.atom "WrongArgument"])
       | _ => app "err" [.atom "bad-request"]
   | [.atom "kindof", a] =>
@@ -78,6 +78,12 @@ def oracle : List Sexp → Sexp
            | some x => if -x == v then app "ok" [] else app "violation" [.atom "silent-integer-wrap", .atom (toString (-x)), .atom (toString v)]
            | none => app "ok" [])
         | _, _ => app "ok" []
+      -- exact integer meaning of the cast: an integer-valued primitive is cast to ITSELF
+      | [.atom "cast", .atom "integer", a], .list [.atom "ok", .atom v] =>
+        match (Prim.dec a : Option (Prim Float)) with
+        | some (.integer i) => if toString i == v then app "ok" [] else app "violation" [.atom "silent-integer-wrap", .atom (toString i), .atom v]
+        | some (.pint n) => if toString n == v then app "ok" [] else app "violation" [.atom "silent-integer-wrap", .atom (toString n), .atom v]
+        | _ => app "ok" []
       | _, _ => app "ok" []
   | _ => app "err" [.atom "bad-request"]
 end Rooc.Drv.C18
